@@ -96,3 +96,49 @@ contract(F, "__and__.and_iterator.__iter__", types=dict(self="and_iterator"),
              "forall(lambda j: implies(not isnone(b_coord), b.seq[j][0] >= val(b_coord)), " + DONE_B + ", len(b.seq))",
              AND_SOUND % (DONE_A, DONE_B),
              AND_COMPLETE % ("i < " + DONE_A + " or j < " + DONE_B)])})
+
+# ---- union / xor / difference: shared vocabulary
+H_A = "forall(lambda i: implies(not isnone(b_coord), a.seq[i][0] < val(b_coord)), 0, " + DONE_A + ")"
+H_B = "forall(lambda j: implies(not isnone(a_coord), b.seq[j][0] < val(a_coord)), 0, " + DONE_B + ")"
+GE_A = "forall(lambda i: implies(not isnone(a_coord), a.seq[i][0] >= val(a_coord)), " + DONE_A + ", len(a.seq))"
+GE_B = "forall(lambda j: implies(not isnone(b_coord), b.seq[j][0] >= val(b_coord)), " + DONE_B + ", len(b.seq))"
+OUT_LT = ("forall(lambda k: implies(not isnone(a_coord), out[k][0] < val(a_coord)) and implies(not isnone(b_coord), out[k][0] < val(b_coord)), 0, len(out))")
+IN_A = "exists(lambda i: 0 <= i and i < %s and a.seq[i][0] == out[k][0] and out[k][1][1] is a.seq[i][1])"
+IN_B = "exists(lambda j: 0 <= j and j < %s and b.seq[j][0] == out[k][0] and out[k][1][2] is b.seq[j][1])"
+NOT_IN_A = "forall(lambda i: a.seq[i][0] != out[k][0], 0, len(a.seq))"
+NOT_IN_B = "forall(lambda j: b.seq[j][0] != out[k][0], 0, len(b.seq))"
+UNION_ELEM = "tuple[int,tuple[str,Payload|Fiber,Payload|Fiber]]"
+
+
+def or_sound(da, db, with_ab=True):
+    ab = "(out[k][1][0] == 'AB' and " + IN_A % da + " and " + IN_B % db + ")"
+    oa = ("(out[k][1][0] == 'A' and " + IN_A % da + " and " + NOT_IN_B +
+          " and fresh(out[k][1][2]) and typeis(out[k][1][2], 'Payload') and out[k][1][2].value == self.b_fiber.g_default)")
+    ob = ("(out[k][1][0] == 'B' and " + IN_B % db + " and " + NOT_IN_A +
+          " and fresh(out[k][1][1]) and typeis(out[k][1][1], 'Payload') and out[k][1][1].value == self.a_fiber.g_default)")
+    parts = ([ab] if with_ab else []) + [oa, ob]
+    return "forall(lambda k: " + " or ".join(parts) + ", 0, len(out))"
+
+
+def fin(s):
+    return s.replace("a.seq", "final(a).seq").replace("b.seq", "final(b).seq")
+
+
+OR_INV = ["not is_collecting", "not a_traced", "not b_traced", SORTED_A, SORTED_B, A_HEAD, B_HEAD, SORTED_OUT,
+          OUT_LT, H_A, H_B, GE_A, GE_B, or_sound(DONE_A, DONE_B),
+          "forall(lambda i: exists(lambda k: 0 <= k and k < len(out) and out[k][0] == a.seq[i][0], witness=[len(out) - 1]), 0, " + DONE_A + ")",
+          "forall(lambda j: exists(lambda k: 0 <= k and k < len(out) and out[k][0] == b.seq[j][0], witness=[len(out) - 1]), 0, " + DONE_B + ")"]
+LEAF_AB = ["wf(self.a_fiber)", "wf(self.b_fiber)", "self.a_fiber.g_leaf", "self.b_fiber.g_leaf", "not Metrics.collecting"]
+
+contract(F, "__or__.or_iterator.__iter__", types=dict(self="or_iterator"),
+         yields=dict(elem=UNION_ELEM),
+         requires=LEAF_AB, modifies=[],
+         ensures={"C04 C10": [
+             fin(SORTED_OUT),
+             fin(or_sound("len(a.seq)", "len(b.seq)")),
+             fin("forall(lambda i: exists(lambda k: 0 <= k and k < len(out) and out[k][0] == a.seq[i][0]), 0, len(a.seq))"),
+             fin("forall(lambda j: exists(lambda k: 0 <= k and k < len(out) and out[k][0] == b.seq[j][0]), 0, len(b.seq))")]},
+         loops={0: dict(types=MERGE_TYPES, invariant=OR_INV),
+                1: dict(types=MERGE_TYPES, invariant=OR_INV + ["isnone(b_coord)"]),
+                2: dict(types=MERGE_TYPES, invariant=OR_INV + ["isnone(a_coord)"])},
+         note="leaf ranks: the absent side is a fresh box holding that fiber's default (interior ranks: C02/C10 bounded parts)")
